@@ -953,6 +953,62 @@ where
             present::<B, P>(rec, st, &s2.text, &km.unseal, &aad, DecodeMode::Ok, true, json!({"cls":"honest-after-failures"}));
         }
     }
+    // (C12) the KIND of error a failing token gets does not depend on what its unauthenticated payload bytes would decode to: two tokens
+    // that differ only in their claims (plain ASCII JSON / bytes that are not UTF-8 / empty / all zero) fail the same way under the
+    // same corruption
+    {
+        rec.emit(json!({"ev":"Reset","scenario":format!("tamper-errkind-{}-{}", B::NAME, purpose)}));
+        let kind_of = |text: &str, key: &[u8], aad: &[u8]| -> String {
+            let Ok(k) = key_from_bytes::<B::V, P>(key) else { return "key-does-not-parse".into() };
+            match catch_unwind(AssertUnwindSafe(|| SealedToken::<B::V, P, Raw, Vec<u8>>::from_str(text).and_then(|t| t.unseal(&k, aad, &paseto_core::validation::NoValidation::dangerous_no_validation())))) {
+                Ok(Ok(_)) => "accepted".into(),
+                Ok(Err(e)) => errname(&e).to_string(),
+                Err(_) => "panic".into(),
+            }
+        };
+        let seal_raw = |claims: &[u8], footer: &[u8], aad: &[u8]| -> Option<String> {
+            let key = key_from_bytes::<B::V, P::SealingKey>(&km.seal).ok()?;
+            UnsealedToken::<B::V, P, Raw>::new(Raw(claims.to_vec())).with_footer(footer.to_vec()).seal(&key, aad).ok().map(|t| t.to_string())
+        };
+        let aad: Vec<u8> = if has_aad { b"ctx".to_vec() } else { vec![] };
+        let footer = b"kid-1".to_vec();
+        let payloads: [&[u8]; 5] = [b"{\"sub\":\"alice\",\"n\":1}", &[0xff, 0xfe, 0x80, 0x81, 0xc3, 0x28, 0xa0, 0xa1, 0xf0, 0x28, 0x8c, 0xbc, 0xff, 0xff, 0x00, 0xc0, 0xaf], b"", &[0u8; 40], "{\"k\":\"\u{e9}\u{20ac}\"} \u{1f600}".as_bytes()];
+        let texts: Vec<Option<String>> = payloads.iter().map(|p| seal_raw(p, &footer, &aad)).collect();
+        let corrupt = |t: &str, how: usize| -> (String, Vec<u8>, Vec<u8>) {
+            let (body, _f) = t.rsplit_once('.').unwrap_or((t, ""));
+            match how {
+                0 => (t.to_string(), other.unseal.clone(), aad.clone()),                                   // another key
+                1 => (format!("{body}.{}", crate::b64::enc(b"kid-2")), km.unseal.clone(), aad.clone()),    // footer exchanged
+                2 => (body.to_string(), km.unseal.clone(), aad.clone()),                                   // footer removed
+                3 => (t.to_string(), km.unseal.clone(), b"other".to_vec()),                                // another assertion
+                _ => {
+                    // last byte of the body flipped
+                    let hdr = header::<B, P>();
+                    let (mut p, f) = split_token(t, hdr.len()).unwrap_or_default();
+                    if let Some(x) = p.last_mut() {
+                        *x ^= 1;
+                    }
+                    (token_string::<B, P>(&p, &f), km.unseal.clone(), aad.clone())
+                }
+            }
+        };
+        if let Some(Some(base)) = texts.first() {
+            for how in 0..5 {
+                if how == 3 && !has_aad {
+                    continue;
+                }
+                let (t0, k0, a0) = corrupt(base, how);
+                let want = kind_of(&t0, &k0, &a0);
+                for (pi, t) in texts.iter().enumerate().skip(1) {
+                    let Some(t) = t else { continue };
+                    let (t1, k1, a1) = corrupt(t, how);
+                    let got = kind_of(&t1, &k1, &a1);
+                    let (l, r) = (rec.intern(got.as_bytes()), rec.intern(want.as_bytes()));
+                    rec.emit(json!({"ev":"Law","name":"error-kind-independent-of-unauthenticated-payload","lhs":l,"rhs":r,"be":B::NAME,"purpose":purpose,"corruption":how,"payload":pi}));
+                }
+            }
+        }
+    }
     // the payload encoding is part of the header (vN.purpose. / vNc.purpose.): a token sealed as one encoding and
     // presented as the other (header rewritten, everything else byte-identical) must fail authentication, both ways
     for (vi, mlen) in [0usize, 23, 80].into_iter().enumerate() {
